@@ -75,7 +75,13 @@ def _cuts_get_date():
         # Meeus' A is the day count of the same label read in the Julian calendar
         y, m, d = Num.int_var("y"), it.info["case_m"], Num.int_var("d")
         return frame.locals["a"] == JDN_julian(y, m, d)
-    return {("Epoch.get_date", "alpha", 1): cut_alpha, ("Epoch.get_date", "a", 1): cut_a}
+    def cut_z(it, frame):
+        # the integer part of jde + 0.5 is the day count of the civil day (the rest continues with that term)
+        y, m, d = Num.int_var("y"), it.info["case_m"], Num.int_var("d")
+        z = JDN(y, m, d)
+        return (frame.locals["z"] == z, z)
+    return {("Epoch.get_date", "z", 1): cut_z, ("Epoch.get_date", "alpha", 1): cut_alpha,
+            ("Epoch.get_date", "a", 1): cut_a}
 
 
 @P.harness("get_date/inverts-day-count", cases=[dict(m=k, greg=g) for k in range(1, 13) for g in (0, 1)],
